@@ -54,7 +54,7 @@ CHECKS = {
              "late and held requests forced through yields; every recorded trace must be accepted by ALL THREE views (M5full, M5time on the trace without linkage events, M5cmd).",
         note="No axioms. Recorded finding C03-D2D3 (requests already routed / past the gate reach replaced or paused targets after the command returned). Which command "
              "started a Drain call is inferred by the timing view (same instant, same drain timeout): the theorems carry 'c is the only candidate' as an explicit hypothesis; "
-             "the view's state-set rule does not look at the states (a drain 'end' could be a mark: example in C03cmd.v). Overlapping commands on one service are outside the "
+             "the restoring state-set of a Drain call never sets 'draining' (rule tightened in session 3; its overwriting a probe result is finding D12). Overlapping commands on one service are outside the "
              "quantifier (monitor excludes them). 'Cut off' = context cancelled; connection teardown timing not modelled.",
         technique="Coq proof (invariants over two event-trace acceptors, joint theorems) + kernel-evaluated trace acceptance by both + command-level trace monitor with known-finding pattern", ref="§7 C03"),
     "C04": dict(
@@ -194,8 +194,8 @@ CHECKS = {
              "obligations (facts guarded w.r.t. the written discipline, lock order acyclic) are discharged on them. A -race stress under the real "
              "scheduler (mixed scenarios + targeted two-sided ones, watchdog, panic capture) searches for a concrete failing schedule.",
         note="No axioms. Trusted: the translator (type-level lock identities, freshness analysis; blind to captured locals and shared slice elements) and the ByOrder/Confined classes "
-             "of the written discipline; the dynamic part only searches. Recorded findings: Service.options.TLS* rewritten by syncTLSOptionsFromRootDomain under the router lock "
-             "and read by requests / MarshalJSON without it. Five races repaired (fixed.json).",
+             "of the written discipline; the dynamic part only searches. No open finding: six races repaired (fixed.json), the last one - the TLS flags of sub-path "
+             "services rewritten under the router lock and read without a common lock - in fix ce2a27e.",
         technique="Coq proof of a lock-set / happens-before theory and of checker soundness + source translator re-run every time + kernel-evaluated verdict + -race stress", ref="§7 C18"),
     "C19": dict(
         text="Theorems on model/Logging.v (props/C19.v: logged status = last WriteHeader / successful Hijack (101), 200 if none, equal to the status "
